@@ -1815,6 +1815,60 @@ func (c *ctx) mutStream(docs []encDoc, n int) {
 	}
 }
 
+// sepStream: direct oracles for separator and bracket handling (no model needed). A valid document in
+// which ONE structural token is damaged must be refused by Decode(&interface{}):
+//   - a ',' or ':' replaced by a space (the next value starts where a separator is required),
+//   - a ']' replaced by '}' or a '}' by ']' (Read{Array,Map}End insist on their own closer).
+//
+// The cases also go to the model (CSeq).
+func (c *ctx) sepStream(docs []encDoc, n int) {
+	if len(docs) == 0 {
+		return
+	}
+	for i := 0; i < n; i++ {
+		e := docs[c.r.Intn(len(docs))]
+		for tries := 0; tries < 8 && (len(e.val) > 300 || len(positions(e.val, "[{")) == 0); tries++ {
+			e = docs[c.r.Intn(len(docs))]
+		}
+		toks := splitTokens(e.val)
+		var cand []int
+		for j, t := range toks {
+			if len(t) == 1 && strings.IndexByte(",:]}", t[0]) >= 0 {
+				cand = append(cand, j)
+			}
+		}
+		if len(cand) == 0 {
+			continue
+		}
+		j := cand[c.r.Intn(len(cand))]
+		var how string
+		var in []byte
+		for k, t := range toks {
+			if k == j {
+				switch t[0] {
+				case ',':
+					in, how = append(in, ' '), "comma-missing"
+				case ':':
+					in, how = append(in, ' '), "colon-missing"
+				case ']':
+					in, how = append(in, '}'), "closer-swapped"
+				case '}':
+					in, how = append(in, ']'), "closer-swapped"
+				}
+				continue
+			}
+			in = append(in, t...)
+		}
+		o := randDopts(c.r)
+		res := c.seqCase("sep", o, in, []int{mDec}, how)
+		c.sum.Dist["sep."+how]++
+		if len(res) > 0 && res[0].cls == clsOK {
+			c.sum.FailC("sep", "separator:"+how+":accepted", "a document with one structural separator missing or one closing bracket of the wrong kind was decoded into interface{} without an error",
+				map[string]interface{}{"input": shortHex(in), "text": shortText(in), "opts": o.String(), "damage": how, "original": shortText(e.val)})
+		}
+	}
+}
+
 const randAlphabet = "[]{}:,\"\\/ntfalsrueu0123456789.-+eE \t\n"
 
 func randHostile(r *vh.Rng) []byte {
@@ -2124,6 +2178,7 @@ func main() {
 	c.validStream(docs, *nValid)
 	c.r = r.Fork()
 	c.mutStream(docs, *nMut)
+	c.sepStream(docs, *nMut/3+20)
 	c.r = r.Fork()
 	c.randStream(*nRand)
 	c.firstByteStream(*firstFull)
